@@ -37,7 +37,7 @@ func rootOpOf(e M) string {
 }
 
 var deriveOps = map[string]bool{"REVERSE": true, "SORT": true, "SORT_BY": true, "UNIQUE": true, "TRAVERSE_ARRAY": true, "MAP": true, "FILTER": true, "COLLECT": true,
-	"ADD": true, "FLATTEN_BY": true, "UNIQUE_BY": true, "GROUP_BY": true, "TO_ENTRIES": true, "WITH_ENTRIES": true}
+	"ADD": true, "FLATTEN_BY": true, "UNIQUE_BY": true, "GROUP_BY": true, "TO_ENTRIES": true, "WITH_ENTRIES": true, "PICK": true, "OMIT": true, "MULTIPLY": true}
 
 // isDerive: `F` or `.a | F` for a rebuilding operator F (family (b) of Gen_Paths)
 func isDerive(e M) bool {
